@@ -779,6 +779,8 @@ def iter_fold(ctx):
     if body is None:
         return NotImplemented
     bound = _iter_bound(ex)
+    if concrete(seq.len) is not None:
+        bound = min(bound, concrete(seq.len))
     ex.assume(st, z3.ULE(seq.len, BV(bound, 64)))
     st.env.setdefault('bounds_used', []).append('Iterator::fold unrolled %d times' % bound)
     acc = ctx.args[1]
@@ -801,6 +803,8 @@ def _iter_all_any(ctx, is_all):
     if body is None:
         return NotImplemented
     bound = _iter_bound(ex)
+    if concrete(seq.len) is not None:
+        bound = min(bound, concrete(seq.len))
     ex.assume(st, z3.ULE(seq.len, BV(bound, 64)))
     ccell = st.alloc(clo)
     terms = []
